@@ -41,7 +41,7 @@ CTX_VIEW = (('k0', 'a0'), ('k1', 'a1'), ('_p', 'x'))
 
 
 def expected_ctx(tname: str, label: int, ctx: dict):
-    if tname in ('TF', 'TH'):
+    if tname in ('TF', 'TH', 'TFN'):
         keep = f'k{label % 2}'
         ctx = {k: v for k, v in ctx.items() if k == keep or k.startswith('_')}
     elif tname == 'TG':
@@ -78,6 +78,13 @@ def bases(tier):
                     out.append(e2.Config(spec=spec, requested=req, context=ctx))
                     if n >= 2:
                         out.append(e2.Config(spec=spec, requested=req, context=ctx, precached=(0,)))
+    # never-cached types with a per-parameter filter (every such task has the same cache_key)
+    for n in (2, 3):
+        for shape in all_shapes(n):
+            if sum(len(d) for d in shape) > 1:
+                continue
+            for types in ({('TFN',) * n, ('TFN',) * (n - 1) + ('TF',)}):
+                out.append(e2.Config(spec=mk_spec(shape, types=types), requested=tuple((i, False) for i in range(n)), context=CTX_VIEW))
     return out
 
 
@@ -319,6 +326,14 @@ def real_relab_dump(backend: str, storage_root: str):
             lab.context = dict(ctxs[step])            # the context is replaced between the calls
         res = lab.run_tasks(list(Built(spec).canon), disable_progress=True, disable_top=True)
         runs.append({'labels': list(spec.labels), 'ctx': ctxs[step], 'returned': len(res)})
+    # the task objects of the first call run once more (bust_cache) under a context that lacks keys the first one had
+    spec0 = mk_spec(((), (0,)), types=('TF', 'TG'), labels=(50, 51))
+    objs = list(Built(spec0).canon)
+    lab.context = dict(ctxs[0])
+    lab.run_tasks(objs, disable_progress=True, disable_top=True)
+    lab.context = {'k0': 'Z0'}
+    res = lab.run_tasks(objs, bust_cache=True, disable_progress=True, disable_top=True)
+    runs.append({'labels': list(spec0.labels), 'ctx': {'k0': 'Z0'}, 'returned': len(res)})
     be = {'serial': SerialRunnerBackend, 'fork': ForkRunnerBackend, 'spawn': SpawnRunnerBackend}[backend]()
     for step in (3, 4):
         spec = mk_spec(((), (0,)), types=('TF', 'TG'), labels=(10 * step, 10 * step + 1))
